@@ -290,3 +290,24 @@ pub fn apply_chain(conf: Conf, chain: &[(String, Vec<RV>)], input: &RV) -> R<RV>
         Ok(_) => Ok(PROBED.with(|p| p.borrow_mut().take()).ok_or_else(|| "probe not reached".to_string())),
     }
 }
+
+
+/// Names of all filters registered under a configuration (through the public reflection API),
+/// without the harness's own `dump` / `probe`.
+pub fn filter_names(conf: Conf) -> Vec<String> {
+    use liquid::reflection::ParserReflection;
+    let b = builder(conf);
+    let mut v: Vec<String> = b.filters().map(|f| f.name().to_string()).filter(|n| n != "dump" && n != "probe").collect();
+    v.sort();
+    v
+}
+
+pub fn tag_names(conf: Conf) -> (Vec<String>, Vec<String>) {
+    use liquid::reflection::ParserReflection;
+    let b = builder(conf);
+    let mut t: Vec<String> = b.tags().map(|f| f.tag().to_string()).collect();
+    let mut bl: Vec<String> = b.blocks().map(|f| f.start_tag().to_string()).collect();
+    t.sort();
+    bl.sort();
+    (t, bl)
+}
